@@ -24,6 +24,7 @@ def run(ctx, sess):
     ctx.rule('C03.f', 'repair never follows a missing summary level: whenever an upper-level summary is built from level k, the buffers of level k exist on that path (allocated or already dereferenced for the current value of the level variable)')
     ctx.rule('C03.c', 'chunk then link: every data chunk is linked only after it was completely written')
     ctx.rule('C03.g', 'a track head never points at a chunk that is not in the file: a head table entry changes once, from zero to the offset of a chunk written before the store (a stop between the two leaves the head at zero, not dangling)')
+    ctx.rule('C03.h', 'a stop between two complete writes never leaves a rewritten payload with its old CRC: every payload that is rewritten in place (jls_raw_wr_payload called outside the append operation) reaches the backend, together with its CRC footer, as one write (traced for the constant length the caller passes)')
     ctx.rule('C03.d', 'truncation is reachable only from the repair branch of jls_rd_open')
     ra(ctx, P)
     seq = rb(ctx, P)
@@ -31,6 +32,7 @@ def run(ctx, sess):
     rd(ctx, P)
     re_(ctx, P)
     rf_(ctx, P)
+    single_write_rule(ctx, P)
     from .c14 import head_table_rule, WRITER_ROOT_PREFIXES
     roots = sorted(f.name for f in P.all_functions() if f.api and f.name.startswith(WRITER_ROOT_PREFIXES))
     head_table_rule(ctx, P, P.reachable_from(roots), 'C03.g')
@@ -367,3 +369,31 @@ def evidence_cond(cond, src_txt):
             if base.get('op') == 'sub' and strip_casts(base['k'][0]).get('field') == 'level' and show(strip_casts(base['k'][1])) == src_txt:
                 return True
     return False
+
+
+def single_write_rule(ctx, P):
+    from ..fd import trace_calls, Top
+    from ..ir import path_of
+    wr = P.fn('jls_raw_wr_payload')
+    n = 0
+    for fn, ev in P.callers().get('jls_raw_wr_payload', []):
+        if fn.name == 'jls_raw_wr':
+            continue            # the append operation: header and payload of a new chunk
+        L = const_of(ev.args[1])
+        n += 1
+        ctx.saw(fn, 1)
+        if L is None:
+            ctx.ob('C03.h', False, fn.name, 'in-place payload rewrite', ev.where(), 'the rewritten length %s is not a constant: cannot be traced' % show(ev.args[1]))
+            continue
+        env = {'payload_length': L, 'self': 1, 'payload': 0x500000, 'self.hdr.tag': 1, 'self.backend.fpos': 0, 'self.backend.fend': 1 << 40,
+               'self.hdr.payload_length': L, 'hdr.payload_length': L}
+        try:
+            calls = trace_calls(P, wr, env, assume_calls=0)
+        except Top:
+            ctx.ob('C03.h', False, fn.name, 'in-place payload rewrite of %d bytes' % L, ev.where(), 'write sequence not decidable')
+            continue
+        nw = [c for c in calls if c[0] == 'jls_bk_fwrite']
+        ctx.ob('C03.h', len(nw) == 1, fn.name, 'in-place payload rewrite of %d bytes' % L, ev.where(),
+               'payload and CRC footer leave in one backend write' if len(nw) == 1 else
+               '%d backend writes (payload, then pad + CRC): a writer stopped between them leaves the new payload with the old CRC and the next open fails on that chunk' % len(nw))
+    ctx.floor('in-place payload rewrites', n, 1)
